@@ -271,7 +271,8 @@ class Input(ContextManager["Input"]):
             return self.queued_interrupting_events.pop(0)
 
         if self.queued_scheduled_events:
-            self.queued_scheduled_events.sort()
+            # sort by time only: events are not orderable, and equal times are fine
+            self.queued_scheduled_events.sort(key=lambda when_event: when_event[0])
             when, _ = self.queued_scheduled_events[0]
             if when < time.time():
                 logger.debug(
